@@ -950,7 +950,7 @@ PROPS = {
         'witness': witness_u2,
         'engine': 'kx',
         'technique': 'Kani function contracts in place on parse_u64_lit/parse_uint_lit/parse_int_lit (proof_for_contract, callers via stub_verified), spec twin from RFC 8610 Appendix B',
-        'level_text': 'Integer literals only. parse_u64_lit is proved equal to a digit-level RFC 8610 value function (overflow => None) for every spelling up to a stated length per radix (complete in value: every u64 and the first overflowing length; bounded in spelling length, so labelled bounded). parse_uint_lit and parse_int_lit are proved against the CONTRACT of parse_u64_lit (stub_verified) for every magnitude and sign: usize/isize boundaries, -2^63 accepted, -(2^63+1) rejected - complete. Text escapes and h/b64 byte strings are outside both verifiers (iterator/String code, data-encoding tables): for them only a bounded differential stand-in against RFC spec twins runs on the real parser (labelled bounded, not counted; it found and led to the repair of F4 lone-surrogate escapes, F17 interior base64 padding, F33 `1e400` stored as infinity and F34 backslash escapes in '..' byte strings not processed / `\\'` rejected). Float literals are compared bit for bit with the correctly rounded value (decimal: Rust's own conversion is the trusted oracle; hexfloat: exact integer arithmetic) - bounded.',
+        'level_text': 'Integer literals only. parse_u64_lit is proved equal to a digit-level RFC 8610 value function (overflow => None) for every spelling up to a stated length per radix (complete in value: every u64 and the first overflowing length; bounded in spelling length, so labelled bounded). parse_uint_lit and parse_int_lit are proved against the CONTRACT of parse_u64_lit (stub_verified) for every magnitude and sign: usize/isize boundaries, -2^63 accepted, -(2^63+1) rejected - complete. Text escapes and h/b64 byte strings are outside both verifiers (iterator/String code, data-encoding tables): for them only a bounded differential stand-in against RFC spec twins runs on the real parser (labelled bounded, not counted; it found and led to the repair of F4 lone-surrogate escapes, F17 interior base64 padding, F33 `1e400` stored as infinity and F34 backslash escapes in unprefixed single-quoted byte strings not processed, escaped single quote rejected). Float literals are compared bit for bit with the correctly rounded value (decimal: the conversion of Rust core is the trusted oracle; hexfloat: exact integer arithmetic) - bounded.',
         'level_note': 'Trusted: Kani/CBMC/cadical; Kani executes the real core::num parsing code (not assumed). Harnesses over symbolic spellings are length-bounded (bounds in evidence) and are reported as bounded, not counted as discharged proof obligations; the two caller proofs are complete. Unverified: unescape_text, clean_prefixed_byte_string, hex/base64 decoding (data-encoding), float parsing (core), the pest call sites.',
         'design_ref': 'DESIGN.md 4 U2',
         'scope': 'integer literal decoders of src/pest_bridge.rs',
